@@ -27,7 +27,7 @@ FRAMED_ASSUMPTIONS = [
     "at most max_extract framer calls and max_inner reads per call (bounds)",
     "obligations: no panic; after every return the state machine still owns its reader and buffer; the codec sees exactly the "
     "payload bytes of the reported frame; exactly the frame is consumed; a refill appends without touching unread bytes; an error "
-    "leaves the unread bytes in place; None only after two end-of-file reads in a row",
+    "leaves the unread bytes in place; None only on an end-of-file read that follows an earlier one (the second EOF ends the stream)",
     "Sink side (framed.sink_send): poll_ready, start_send, poll_flush until it answers, from a not-yet-configured or idle sink with "
     "arbitrary leftover buffer content; encoder = appends a solver-chosen payload or fails (possibly leaving partial output); framer = "
     "rewrites the initialized part into a solver-chosen frame at least as long; obligations: the encoder starts from an empty buffer, "
